@@ -192,7 +192,7 @@ func genModelCase(rt *rapid.T) (ExecCase, *Path) {
 
 // modelTableCases: a bounded sweep of short paths over a small alphabet.
 func modelTableCases() []ExecCase {
-	steps := []string{".a", ".b", ".*", "[*]", "[0]", "[last]", "[0 to 1]", ".**", ".**{1}", " ? (@ > 1)", " ? (@.a == 1)", " ? (exists(@.a))", ".size()", ".type()", ".abs()", ".string()", ".double()", ".keyvalue()", ".keyvalue().value", ".floor()", ".boolean()", ".integer()", ".number()", ".bigint()", ".ceiling()", ".decimal(3,1)", ".datetime()", ".date()"}
+	steps := []string{".a", ".b", ".*", "[*]", "[0]", "[last]", "[0 to 1]", ".**", ".**{1}", ".**{last}", ".**{1 to last}", " ? (@ > 1)", " ? (@.a == 1)", " ? (exists(@.a))", ".size()", ".type()", ".abs()", ".string()", ".double()", ".keyvalue()", ".keyvalue().value", ".floor()", ".boolean()", ".integer()", ".number()", ".bigint()", ".ceiling()", ".decimal(3,1)", ".datetime()", ".date()"}
 	docs := []string{`1`, `"2015-08-01"`, `null`, `[]`, `[1,2]`, `[1,"a",null]`, `{"a":1}`, `{"a":[1,2]}`, `[{"a":1},{"a":2}]`, `[{"a":[2,3]},{"b":1}]`, `{"a":{"a":1.5}}`, `[[1,2],[3]]`, `{"a":"12"}`, `[true,"t",0]`, `{"a":-1.5,"b":null}`}
 	var out []ExecCase
 	for _, s1 := range steps {
